@@ -1814,6 +1814,7 @@ class Interp:
             lid = (self.fi.qualname, n.lineno, next(self._loop_ids))
             iters = [it]
             ok = True
+            allconds = []
             for gi, g in enumerate(n.generators):
                 if gi > 0:
                     r = [x for x in self.eval(g.iter, inner) if x[2] is None]
@@ -1834,6 +1835,7 @@ class Interp:
                         break
                     inner = r[0][0]
                     conds.append(r[0][1])
+                    allconds.append(r[0][1])
             if not ok:
                 out.append((s2, fresh('comp'), None))
                 continue
@@ -1848,7 +1850,8 @@ class Interp:
             if not ok:
                 out.append((s2, fresh('comp'), None))
                 continue
-            t = ('comp', ckind, tuple(vals), tuple(iters), lid)
+            t = ('comp', ckind, tuple(vals), tuple(iters), lid,
+                 tuple(allconds))
             if inner.trace:
                 s2.emit(('comp', lid, inner.trace))
             out.append((s2, t, None))
